@@ -1,5 +1,6 @@
 //! Correspondence harness: drives the real acpi_tables crate (path = /repo) on generated or replayed
 //! cases and prints "<component>\t<case>\t<observations>" lines for the extracted model to judge.
+mod amlterm;
 mod cksum;
 mod kernels;
 mod sx;
@@ -58,6 +59,7 @@ fn run_component(comp: u64, case: &Sx) -> Vec<Ev> {
         29 => t_facs::run(case, &mut out),
         30 => t_rsdp::run(case, &mut out),
         31 => t_sdt::run(case, &mut out),
+        40 | 41 => amlterm::run(comp, case, &mut out),
         _ => panic!("harness: unknown component {}", comp),
     }));
     if r.is_err() {
@@ -293,6 +295,9 @@ fn main() {
             let mut rng = Rng(seed ^ 0xC0FF_EE00 ^ ((prop as u64) << 32));
             let mut emit = Emit { out: &mut out, prop, shard, nshards, sweep_idx: 0, stats: Stats::default() };
             match prop {
+                6 => amlterm::gen_c06(tier, &mut rng, &mut emit),
+                10 => amlterm::gen_c10(tier, &mut rng, &mut emit),
+                15 => amlterm::gen_c15(tier, &mut rng, &mut emit),
                 7 => kernels::gen_c07(tier, &mut rng, &mut emit),
                 8 => kernels::gen_c08(tier, &mut rng, &mut emit),
                 9 => kernels::gen_c09(tier, &mut rng, &mut emit),
